@@ -5,7 +5,7 @@ package spec
 // Contracts for gvc (comment-only; compiled only with -tags verif and then adds no code).
 
 //@ func isDNSNameChar
-//@   property C17, C18:safety
+//@   property C13, C16, C17, C18:safety
 //@   ensures iff: result <==> dnsByte(r)
 //@   assigns nothing
 
@@ -17,14 +17,14 @@ package spec
 //@   ensures user-localpart-grammar: validUsernameRegex == extcall("regexp.MustCompile", "^[0-9a-z_\\-=./]+$")
 
 //@ func splitServerName
-//@   property C13, C17, C18:safety
+//@   property C13, C16, C17, C18:safety
 //@   ensures host: result[0] == snHost(string(serverName))
 //@   ensures port: result[1] == snPort(string(serverName))
 //@   ensures port-range: result[1] >= 0 - 1 && result[1] <= 65535
 //@   assigns nothing
 
 //@ func ParseAndValidateServerName
-//@   property C13, C17, C18:safety
+//@   property C13, C16, C17, C18:safety
 //@   ensures iff: valid <==> serverNameOK(string(serverName))
 //@   ensures parts: valid ==> (host == snHost(string(serverName)) && port == snPort(string(serverName)))
 //@   ensures port-range: port >= 0 - 1 && port <= 65535
